@@ -306,14 +306,16 @@ class CaptionSet:
     by all the children.
     """
 
-    def __init__(self, captions, styles={}, layout_info=None):
+    def __init__(self, captions, styles=None, layout_info=None):
         """
         :param captions: A dictionary of the format {'language': CaptionList}
         :param styles: A dictionary with CSS-like styling rules
         :param Layout layout_info: A Layout object with the positioning info
         """
         self._captions = captions
-        self._styles = styles
+        # a new dict per instance: a shared default would leak styles added
+        # to one caption set into every other set created without styles
+        self._styles = {} if styles is None else styles
         self.layout_info = layout_info
 
     def set_captions(self, lang, captions):
